@@ -222,7 +222,7 @@ func (s *c28State) battery(f *mField) (out []c28Ans, want []string) {
 	if s.typ == "int" {
 		for _, c := range s.intColumns() {
 			wv, wok := f.Vals[c]
-			fld := s.env.cmds[0].Server.Holder().Field(s.index, n)
+			fld := s.env.fieldOn(s.index, n, c)
 			v, ok, err := fld.Value(c)
 			s.r.Eval(1)
 			out = append(out, c28Ans{call: fmt.Sprintf("Field(%s).Value(%d)", n, c), kind: "value", exact: fmt.Sprintf("%d %v %v", v, ok, err)})
@@ -417,7 +417,7 @@ func (s *c28State) intPreds(f *mField) []int64 {
 func TestVerifC28(t *testing.T) {
 	r := vk.Start(t, "C28")
 	defer r.Finish()
-	env := esrvStart(t, 1, "w")
+	env := esrvStart(t, esrvNodes(), "w")
 	defer env.Close()
 	for _, p := range []string{"set:query", "set:import", "set:roaring-pilosa", "set:roaring-official", "set:mixed", "mutex:query", "mutex:import", "mutex:mixed",
 		"bool:query", "bool:import", "time:query", "time:import", "time:roaring-pilosa", "time:roaring-official", "time:mixed", "int:query", "int:importvalue", "int:mixed"} {
